@@ -53,11 +53,11 @@ Proof. split; [exact dup_s_wf|]. split; [cbn; lia|]. split; [cbn; lia|]. split; 
 (* to_dense keeps the LAST stored duplicate *)
 Theorem to_dense_last_duplicate : forall (A : Arith) (s : sparse A), wfS s ->
   exists D, sp_to_dense s = Ok D /\ rows D = sp_rows s /\ cols D = sp_cols s /\
-    forall i j, i < sp_rows s -> j < sp_cols s -> mget D i j = Ok (last (dvals s i j) zero).
+    forall i j, i < sp_rows s -> j < sp_cols s -> mget D i j = Ok (last (dvals s i j) (@Arith.zero A)).
 Proof. intros A s. exact (to_dense_last_duplicate_lemma s). Qed.
 Check to_dense_last_duplicate : forall (A : Arith) (s : sparse A), wfS s ->
   exists D, sp_to_dense s = Ok D /\ rows D = sp_rows s /\ cols D = sp_cols s /\
-    forall i j, i < sp_rows s -> j < sp_cols s -> mget D i j = Ok (last (dvals s i j) zero).
+    forall i j, i < sp_rows s -> j < sp_cols s -> mget D i j = Ok (last (dvals s i j) (@Arith.zero A)).
 Print Assumptions to_dense_last_duplicate.
 Example to_dense_last_duplicate_nonvacuous :
   wfS dup_s /\ 1 < sp_rows dup_s /\ 1 < sp_cols dup_s /\ length (dvals dup_s 1 1) = 3 /\ ~ NoDupKeys dup_s.
@@ -71,7 +71,7 @@ Theorem views_with_duplicates : forall (A : Arith) (s : sparse A), wfS s ->
   forall i j, i < sp_rows s -> j < sp_cols s ->
     dvals s i j = map (@tval A) (filter (tmatch i j) (ents s)) /\
     sp_get s i j = Ok (hd_error (dvals s i j)) /\
-    mget D i j = Ok (last (dvals s i j) zero) /\
+    mget D i j = Ok (last (dvals s i j) (@Arith.zero A)) /\
     sp_entry s i j = suml (dvals s i j).
 Proof. intros A s. exact (views_with_duplicates_lemma s). Qed.
 Check views_with_duplicates : forall (A : Arith) (s : sparse A), wfS s ->
@@ -81,7 +81,7 @@ Check views_with_duplicates : forall (A : Arith) (s : sparse A), wfS s ->
   forall i j, i < sp_rows s -> j < sp_cols s ->
     dvals s i j = map (@tval A) (filter (tmatch i j) (ents s)) /\
     sp_get s i j = Ok (hd_error (dvals s i j)) /\
-    mget D i j = Ok (last (dvals s i j) zero) /\
+    mget D i j = Ok (last (dvals s i j) (@Arith.zero A)) /\
     sp_entry s i j = suml (dvals s i j).
 Print Assumptions views_with_duplicates.
 Example views_with_duplicates_nonvacuous :
@@ -91,18 +91,18 @@ Proof. split; [exact dup_s_wf|]. split; [cbn; lia|]. split; [cbn; lia|]. split; 
 (* the views agree at a position exactly when first = last (get vs to_dense) and last = sum (to_dense vs the products) *)
 Theorem views_agree_iff : forall (A : Arith) (s : sparse A) (D : matrix A), wfS s -> sp_to_dense s = Ok D ->
   forall i j, i < sp_rows s -> j < sp_cols s ->
-    ((exists o, sp_get s i j = Ok o /\ mget D i j = Ok (oval o)) <-> hd zero (dvals s i j) = last (dvals s i j) zero) /\
-    (mget D i j = Ok (sp_entry s i j) <-> last (dvals s i j) zero = suml (dvals s i j)).
+    ((exists o, sp_get s i j = Ok o /\ mget D i j = Ok (oval o)) <-> hd (@Arith.zero A) (dvals s i j) = last (dvals s i j) (@Arith.zero A)) /\
+    (mget D i j = Ok (sp_entry s i j) <-> last (dvals s i j) (@Arith.zero A) = suml (dvals s i j)).
 Proof. intros A s D. exact (views_agree_iff_lemma s D). Qed.
 Check views_agree_iff : forall (A : Arith) (s : sparse A) (D : matrix A), wfS s -> sp_to_dense s = Ok D ->
   forall i j, i < sp_rows s -> j < sp_cols s ->
-    ((exists o, sp_get s i j = Ok o /\ mget D i j = Ok (oval o)) <-> hd zero (dvals s i j) = last (dvals s i j) zero) /\
-    (mget D i j = Ok (sp_entry s i j) <-> last (dvals s i j) zero = suml (dvals s i j)).
+    ((exists o, sp_get s i j = Ok o /\ mget D i j = Ok (oval o)) <-> hd (@Arith.zero A) (dvals s i j) = last (dvals s i j) (@Arith.zero A)) /\
+    (mget D i j = Ok (sp_entry s i j) <-> last (dvals s i j) (@Arith.zero A) = suml (dvals s i j)).
 Print Assumptions views_agree_iff.
 Example views_agree_iff_nonvacuous :   (* at (1,1) of dup_s first = 2, last = 500, sum = 532: the views disagree there *)
   wfS dup_s /\ (exists D, sp_to_dense dup_s = Ok D) /\ 1 < sp_rows dup_s /\ 1 < sp_cols dup_s /\
-  flat_q (hd zero (dvals dup_s 1 1)) <> flat_q (last (dvals dup_s 1 1) zero) /\
-  flat_q (last (dvals dup_s 1 1) zero) <> flat_q (suml (dvals dup_s 1 1)).
+  flat_q (hd (@Arith.zero AQ) (dvals dup_s 1 1)) <> flat_q (last (dvals dup_s 1 1) (@Arith.zero AQ)) /\
+  flat_q (last (dvals dup_s 1 1) (@Arith.zero AQ)) <> flat_q (suml (dvals dup_s 1 1)).
 Proof. split; [exact dup_s_wf|]. split; [eexists; reflexivity|]. split; [cbn; lia|]. split; [cbn; lia|]. split; vm_compute; discriminate. Qed.
 
 (* views_agree (above), re-derived from the statements with duplicates: under NoDupKeys every list has at most one element *)
@@ -112,7 +112,7 @@ Theorem views_agree_from_duplicates : forall (A : Arith) (s : sparse A), wfS s -
   exists D, sp_to_dense s = Ok D /\ rows D = sp_rows s /\ cols D = sp_cols s /\
   forall i j, i < sp_rows s -> j < sp_cols s ->
     (forall v, sp_get s i j = Ok (Some v) <-> In (i, j, v) (ents s)) /\
-    (exists o, sp_get s i j = Ok o /\ mget D i j = Ok (match o with Some v => v | None => zero end)).
+    (exists o, sp_get s i j = Ok o /\ mget D i j = Ok (match o with Some v => v | None => @Arith.zero A end)).
 Proof. intros A s. exact (views_agree_rederived_lemma s). Qed.
 Check views_agree_from_duplicates : forall (A : Arith) (s : sparse A), wfS s -> NoDupKeys s ->
   sp_to_triplets s = Ok (ents s) /\
@@ -120,7 +120,7 @@ Check views_agree_from_duplicates : forall (A : Arith) (s : sparse A), wfS s -> 
   exists D, sp_to_dense s = Ok D /\ rows D = sp_rows s /\ cols D = sp_cols s /\
   forall i j, i < sp_rows s -> j < sp_cols s ->
     (forall v, sp_get s i j = Ok (Some v) <-> In (i, j, v) (ents s)) /\
-    (exists o, sp_get s i j = Ok o /\ mget D i j = Ok (match o with Some v => v | None => zero end)).
+    (exists o, sp_get s i j = Ok o /\ mget D i j = Ok (match o with Some v => v | None => @Arith.zero A end)).
 Print Assumptions views_agree_from_duplicates.
 Example views_agree_from_duplicates_nonvacuous :
   wfS nd_s /\ NoDupKeys nd_s.
@@ -134,7 +134,7 @@ Theorem from_triplets_duplicates : forall (A : Arith) r c (ts : list (triplet A)
     forall i j, i < r -> j < c ->
       dvals s i j = map (@tval A) (filter (tmatch i j) ts) /\
       sp_get s i j = Ok (hd_error (map (@tval A) (filter (tmatch i j) ts))) /\
-      mget D i j = Ok (last (map (@tval A) (filter (tmatch i j) ts)) zero) /\
+      mget D i j = Ok (last (map (@tval A) (filter (tmatch i j) ts)) (@Arith.zero A)) /\
       sp_entry s i j = suml (map (@tval A) (filter (tmatch i j) ts)).
 Proof. intros A r c ts. exact (from_triplets_duplicates_lemma r c ts). Qed.
 Check from_triplets_duplicates : forall (A : Arith) r c (ts : list (triplet A)),
@@ -144,7 +144,7 @@ Check from_triplets_duplicates : forall (A : Arith) r c (ts : list (triplet A)),
     forall i j, i < r -> j < c ->
       dvals s i j = map (@tval A) (filter (tmatch i j) ts) /\
       sp_get s i j = Ok (hd_error (map (@tval A) (filter (tmatch i j) ts))) /\
-      mget D i j = Ok (last (map (@tval A) (filter (tmatch i j) ts)) zero) /\
+      mget D i j = Ok (last (map (@tval A) (filter (tmatch i j) ts)) (@Arith.zero A)) /\
       sp_entry s i j = suml (map (@tval A) (filter (tmatch i j) ts)).
 Print Assumptions from_triplets_duplicates.
 Example from_triplets_duplicates_nonvacuous :   (* dup_ts lists (1,1) three times, not adjacent *)
@@ -181,6 +181,13 @@ Example transpose_duplicates_nonvacuous :
   wfS dup_s /\ 1 < sp_rows dup_s /\ 1 < sp_cols dup_s /\ length (dvals dup_s 1 1) = 3 /\ ~ NoDupKeys dup_s.
 Proof. split; [exact dup_s_wf|]. split; [cbn; lia|]. split; [cbn; lia|]. split; [reflexivity|exact dup_s_has_duplicates]. Qed.
 
+(* ---------------- the later imports of Props/C07.v (rounding half): they shadow [zero], [add], ... by the float ones ---------------- *)
+From Coq Require Import Reals Lra Lia.
+From OV Require Import Base.RoundModel Proofs.SparseBase Proofs.RoundDot Proofs.RoundSparse Proofs.RoundFlx Proofs.RoundExamples.
+From Coq Require Import Floats.
+From OV Require Import Inst.FloatInst Proofs.ComplexRound Proofs.RoundDotFloat.
+From OV Require Import Proofs.RoundSparseDense.
+From OV Require Import Proofs.RoundSparseT.
 (* ---------------- Props/pending/C07_dups.v.txt ---------------- *)
 (* ======================================================================================================
    C07 (sparse products), duplicate positions -- package dups.  Append to Props/C07.v.
@@ -207,12 +214,12 @@ Proof. split; [reflexivity|vm_compute; reflexivity]. Qed.
 
 (* no position stored twice: at most one value per position, so first = last = sum *)
 Theorem nodup_first_last_sum : forall (A : Arith), RingLaws A -> forall (s : sparse A) i j, wfS s -> NoDupKeys s -> j < sp_cols s ->
-  length (dvals s i j) <= 1 /\ hd zero (dvals s i j) = last (dvals s i j) zero /\
-  last (dvals s i j) zero = sp_entry s i j.
+  length (dvals s i j) <= 1 /\ hd (@Arith.zero A) (dvals s i j) = last (dvals s i j) (@Arith.zero A) /\
+  last (dvals s i j) (@Arith.zero A) = sp_entry s i j.
 Proof. intros A RL s i j. exact (nodup_first_last_sum_lemma RL s i j). Qed.
 Check nodup_first_last_sum : forall (A : Arith), RingLaws A -> forall (s : sparse A) i j, wfS s -> NoDupKeys s -> j < sp_cols s ->
-  length (dvals s i j) <= 1 /\ hd zero (dvals s i j) = last (dvals s i j) zero /\
-  last (dvals s i j) zero = sp_entry s i j.
+  length (dvals s i j) <= 1 /\ hd (@Arith.zero A) (dvals s i j) = last (dvals s i j) (@Arith.zero A) /\
+  last (dvals s i j) (@Arith.zero A) = sp_entry s i j.
 Print Assumptions nodup_first_last_sum.
 Example nodup_first_last_sum_nonvacuous :
   RingLaws AQ /\ wfS nd_s /\ NoDupKeys nd_s /\ 1 < sp_cols nd_s /\ length (dvals nd_s 2 1) = 1.
@@ -234,34 +241,34 @@ Proof. split; [exact dup_RingLaws|]. split; [exact nd_s_wf|exact nd_s_nodup]. Qe
 (* multiply = Matrix::multiply of the dense conversion, for all vectors, IFF at every position the stored duplicates sum to the last one *)
 Theorem sp_mul_to_dense_iff : forall (A : Arith), RingLaws A -> forall (s : sparse A), wfS s ->
   exists D, sp_to_dense s = Ok D /\ rows D = sp_rows s /\ cols D = sp_cols s /\
-    (forall i j, i < sp_rows s -> j < sp_cols s -> mget D i j = Ok (last (dvals s i j) zero)) /\
+    (forall i j, i < sp_rows s -> j < sp_cols s -> mget D i j = Ok (last (dvals s i j) (@Arith.zero A))) /\
     ((forall x, length x = sp_cols s -> sp_mul s x = multiply D x) <->
-     (forall i j, i < sp_rows s -> j < sp_cols s -> suml (dvals s i j) = last (dvals s i j) zero)).
+     (forall i j, i < sp_rows s -> j < sp_cols s -> suml (dvals s i j) = last (dvals s i j) (@Arith.zero A))).
 Proof. intros A RL s. exact (sp_mul_to_dense_iff_lemma RL s). Qed.
 Check sp_mul_to_dense_iff : forall (A : Arith), RingLaws A -> forall (s : sparse A), wfS s ->
   exists D, sp_to_dense s = Ok D /\ rows D = sp_rows s /\ cols D = sp_cols s /\
-    (forall i j, i < sp_rows s -> j < sp_cols s -> mget D i j = Ok (last (dvals s i j) zero)) /\
+    (forall i j, i < sp_rows s -> j < sp_cols s -> mget D i j = Ok (last (dvals s i j) (@Arith.zero A))) /\
     ((forall x, length x = sp_cols s -> sp_mul s x = multiply D x) <->
-     (forall i j, i < sp_rows s -> j < sp_cols s -> suml (dvals s i j) = last (dvals s i j) zero)).
+     (forall i j, i < sp_rows s -> j < sp_cols s -> suml (dvals s i j) = last (dvals s i j) (@Arith.zero A))).
 Print Assumptions sp_mul_to_dense_iff.
 Example sp_mul_to_dense_iff_nonvacuous :   (* on dup_s the two products differ: [-11; -1064] against [-11; -1000] *)
   RingLaws AQ /\ wfS dup_s /\ length dup_x = sp_cols dup_s /\
   fl_res (fl_list flat_q) (sp_mul dup_s dup_x) <> fl_res (fl_list flat_q) (let* D := sp_to_dense dup_s in multiply D dup_x).
 Proof. split; [exact dup_RingLaws|]. split; [exact dup_s_wf|]. split; [reflexivity|]. vm_compute. discriminate. Qed.
 
-(* transpose_multiply = the transposed dense product of the dense conversion, for all vectors, IFF the same condition holds ([dlast s i j] = last (dvals s i j) zero; [Matrix.msp r c f D]: D is a well-formed r x c dense matrix with entries f) *)
+(* transpose_multiply = the transposed dense product of the dense conversion, for all vectors, IFF the same condition holds ([dlast s i j] = last (dvals s i j) (@Arith.zero A); [Matrix.msp r c f D]: D is a well-formed r x c dense matrix with entries f) *)
 Theorem sp_tmul_to_dense_iff : forall (A : Arith), RingLaws A -> forall (s : sparse A), wfS s ->
   exists D, sp_to_dense s = Ok D /\ Proofs.Matrix.msp (sp_rows s) (sp_cols s) (dlast s) D /\
     ((forall y, length y = sp_rows s -> sp_tmul s y = Ok (dtmulv (Proofs.Matrix.entry D) (sp_rows s) (sp_cols s) y)) <->
-     (forall i j, i < sp_rows s -> j < sp_cols s -> suml (dvals s i j) = last (dvals s i j) zero)).
+     (forall i j, i < sp_rows s -> j < sp_cols s -> suml (dvals s i j) = last (dvals s i j) (@Arith.zero A))).
 Proof. intros A RL s. exact (sp_tmul_to_dense_iff_lemma RL s). Qed.
 Check sp_tmul_to_dense_iff : forall (A : Arith), RingLaws A -> forall (s : sparse A), wfS s ->
   exists D, sp_to_dense s = Ok D /\ Proofs.Matrix.msp (sp_rows s) (sp_cols s) (dlast s) D /\
     ((forall y, length y = sp_rows s -> sp_tmul s y = Ok (dtmulv (Proofs.Matrix.entry D) (sp_rows s) (sp_cols s) y)) <->
-     (forall i j, i < sp_rows s -> j < sp_cols s -> suml (dvals s i j) = last (dvals s i j) zero)).
+     (forall i j, i < sp_rows s -> j < sp_cols s -> suml (dvals s i j) = last (dvals s i j) (@Arith.zero A))).
 Print Assumptions sp_tmul_to_dense_iff.
 Example sp_tmul_to_dense_iff_nonvacuous :
-  RingLaws AQ /\ wfS dup_s /\ length dup_y = sp_rows dup_s /\ flat_q (suml (dvals dup_s 1 1)) <> flat_q (last (dvals dup_s 1 1) zero).
+  RingLaws AQ /\ wfS dup_s /\ length dup_y = sp_rows dup_s /\ flat_q (suml (dvals dup_s 1 1)) <> flat_q (last (dvals dup_s 1 1) (@Arith.zero AQ)).
 Proof. split; [exact dup_RingLaws|]. split; [exact dup_s_wf|]. split; [reflexivity|]. vm_compute. discriminate. Qed.
 
 (* DESIGN Appendix E in its original form: with no position stored twice the sparse product IS the dense product of to_dense *)
